@@ -110,6 +110,21 @@ def result_multi(params):
     return {"violated": bool(bad), "problems": bad[:6]}
 
 
+def enum_eq(params):
+    """equality of the members of one _Enum_Compare enumeration"""
+    import importlib
+    mod, _, name = params["cls"].rpartition(".")
+    cls = getattr(importlib.import_module(mod), name)
+    bad = []
+    for a in cls:
+        for b in cls:
+            if (a == b) is not (a is b):
+                bad.append(f"{a} == {b} gives {a == b}")
+        if not (a == a.name) or (a == a.name + "_") or (a == 0):
+            bad.append(f"{a} compared with strings / other objects: {a == a.name}, {a == a.name + '_'}, {a == 0}")
+    return {"violated": bool(bad), "problems": bad[:5]}
+
+
 def result(params):
     from panoptica.panoptica_result import PanopticaResult
     from panoptica.metrics import Metric, MetricMode
